@@ -559,6 +559,20 @@ func (r *Resolver) resolve(ctx context.Context, rs *resolveState) (*dns.Msg, err
 	m.SetRcode(rs.req, dns.RcodeSuccess)
 	m.RecursionAvailable = true
 	m.Extra = rs.req.Extra
+	// The clean message stands in for the authority's reply, so it says what
+	// that reply said about its audience (see clearAdditional): the request's
+	// own client-subnet option always reads SCOPE 0, and handing that up
+	// files a denial the authority scoped to one subnet under the shared key.
+	if scope := upstreamClientSubnet(rs.req, resp); scope != nil {
+		extra := make([]dns.RR, 0, len(rs.req.Extra))
+		for _, rr := range rs.req.Extra {
+			if opt, ok := rr.(*dns.OPT); ok {
+				rr = optWithClientSubnet(opt, scope)
+			}
+			extra = append(extra, rr)
+		}
+		m.Extra = extra
+	}
 
 	return m, nil
 }
